@@ -429,7 +429,7 @@ def gen_scenario(root, profile=None):
             "delays": {"on_trial_result": d_res, "complete_after_final_report": d_res + dl(), "complete_after_stop": dl(),
                        "start": dl(), "stop": dl()},
         }
-        if r.chance(0.5):
+        if r.chance(0.5) or p.get("sim_fixed_seed"):
             scen["sim"]["fixed_seed"] = r.randint(0, scen["sim"]["n_seeds"] - 1)
         scen["backend"] = {"delete_checkpoints": False, "async_stop": 0.0}
         scen["faults"] = [f for f in faults if f["kind"] == "crash"]
